@@ -70,6 +70,11 @@ def run(ctx):
         sv = [x for x in smallscope.values() if gen_value.is_plain(x) and not isinstance(x, tuple)]   # the refusal branch has its own inputs
         vals += sv + [[a, b] for a in sv[:23] for b in sv[:23]] + [{"a": a, "b": b} for a in sv[:23] for b in sv[:23]]
         ctx.cov["smallscope_values"] = len(sv)
+    # long containers of fixed scalars, with members replaced by their ==-equal twins of another kind at the first, a middle
+    # and the last position (checked below in addition to the sampled perturbations)
+    longs = [list(range(100, 120)), [float(i) for i in range(16)], [b"x"] * 16, ["s%d" % i for i in range(30)], {"k%02d" % i: i for i in range(20)},
+             {"xs": list(range(18))}, [[1, 2.0, "s"] * 6]]
+    vals += longs
     # values in which the very same container object occurs at several positions (non-cyclic sharing)
     for _ in range(ctx.n(40, 300)):
         shared = ctx.rnd.choice([[1, 2], {"a": 1}, [], {}, [[0]], {"k": [1]}])
@@ -103,8 +108,19 @@ def run(ctx):
             if any(e[0] in ("int", "idx", "chr", "uniform") for e in log):
                 ctx.violation("from_native(v) consumes randomness when generating", value=repr(v), draws=log[:5])
                 break
+        twins = []
+        if isinstance(v, (list, dict)) and len(v) >= 16:
+            items = list(v.items()) if isinstance(v, dict) else list(enumerate(v))
+            for pos in (0, len(items) // 2, len(items) - 1):
+                k, x = items[pos]
+                tw = float(x) if (isinstance(x, int) and not isinstance(x, bool)) else (int(x) if isinstance(x, float) and x == int(x) else
+                                                                                           (bytearray(x) if isinstance(x, bytes) else None))
+                if tw is not None:
+                    c = dict(v) if isinstance(v, dict) else list(v)
+                    c[k] = tw
+                    twins.append(c)
         ps = gen_value.perturb(v, ctx.rnd, zoo_n=2)
-        for w in ctx.rnd.sample(ps, min(len(ps), ctx.n(25, 80))):
+        for w in twins + ctx.rnd.sample(ps, min(len(ps), ctx.n(25, 80))):
             ctx.count("probes")
             try:
                 acc = not validate(s, w).has_errors()
